@@ -8,9 +8,9 @@ spec/AssemblyCheck.tla  TLC judges the dumps of the real assemblers: sparsity co
                         symmetry, kernel, MassSum = Volume, Bilinear(u,v) / functional values as exact scaled integers (V)
 harness/c16_assembly_*.cpp (common/vasm16*.hpp)  execute the jobs on the real classes and measure
 """
-import json, os, shutil, glob
+import json, os, shutil, glob, time
 import concurrent.futures as cf
-import vlib, vmeshlib
+import vlib
 
 LEVEL = "model_checking"
 MESHDIR = os.path.join(vlib.REPO, "data", "meshes")
@@ -23,8 +23,12 @@ BINARIES = {
     ("hypercube", 3): "c16_assembly_h3",
     ("simplex", 3): "c16_assembly_s3",
 }
-SPECIAL_ROUTES = ["burgers", "burgersjob", "voxel"]
-SPECIAL_BIN = "c16_assembly_sp"
+SPECIAL_ROUTES = ["burgers", "burgersjob", "voxel", "voxeldefo"]
+SPECIAL_BINS = {
+    ("hypercube", 2): "c16_assembly_sq2",
+    ("simplex", 2): "c16_assembly_st2",
+    ("hypercube", 3): "c16_assembly_sh3",
+}
 
 
 def mesh_catalogue(tier):
@@ -45,6 +49,20 @@ def mesh_catalogue(tier):
     M.append(("circle5_L1", "hypercube", 2, "general", {"file": os.path.join(MESHDIR, "unit_circle_quad_5.xml"), "nref": 1}, 20))
     if th:
         M.append(("circle5_L2", "hypercube", 2, "general", {"file": os.path.join(MESHDIR, "unit_circle_quad_5.xml"), "nref": 2}, 80))
+    # ---- triangles ----
+    for L in range(0, 4 if th else 3):
+        M.append(("utri_L%d" % L, "simplex", 2, "box", {"fac": "unitcube", "level": L}, 2 * 4 ** L))
+    M.append(("twotria", "simplex", 2, "affine", {"raw": {"X": [[0, 0], [8, 0], [2, 6], [10, 4]], "cs": 2, "cells": [[0, 1, 2], [3, 2, 1]], "route": "deduct"}}, 2))
+    M.append(("circtri4_L0", "simplex", 2, "affine", {"file": os.path.join(MESHDIR, "unit_circle_tria_4.xml"), "nref": 0}, 4))
+    M.append(("circtri4_L1", "simplex", 2, "affine", {"file": os.path.join(MESHDIR, "unit_circle_tria_4.xml"), "nref": 1}, 16))
+    # ---- hexahedra ----
+    for L in range(0, 3 if th else 2):
+        M.append(("ucube_L%d" % L, "hypercube", 3, "box", {"fac": "unitcube", "level": L}, 8 ** L))
+    M.append(("struct_2x1x4", "hypercube", 3, "box", {"fac": "struct", "nx": 2, "ny": 1, "nz": 4}, 8))
+    # ---- tetrahedra ----
+    M.append(("utet_L0", "simplex", 3, "box", {"fac": "unitcube", "level": 0}, 6))
+    if th:
+        M.append(("utet_L1", "simplex", 3, "box", {"fac": "unitcube", "level": 1}, 72))
     return M
 
 
@@ -80,6 +98,49 @@ def gen_plans(chk, tier):
     return plans
 
 
+def judge_batches(chk, cases, max_procs=6, target_weight=30000, timeout=1500):
+    """write the dumps into ndjson batches, one TLC process (AssemblyCheck) per batch; returns {case id: verdict}"""
+    gdir = os.path.join(vlib.BUILD, "gen", chk.pid)
+    os.makedirs(gdir, exist_ok=True)
+    cases = sorted(cases, key=case_weight, reverse=True)
+    batches, cur, w = [], [], 0
+    for c in cases:
+        cw = case_weight(c)
+        if cur and w + cw > target_weight:
+            batches.append(cur); cur, w = [], 0
+        cur.append(c); w += cw
+    if cur:
+        batches.append(cur)
+    paths = []
+    for k, b in enumerate(batches):
+        p = os.path.join(gdir, "c16_batch_%d_%d.ndjson" % (os.getpid(), k))
+        with open(p, "w") as f:
+            for c in b:
+                f.write(json.dumps(c, separators=(",", ":")) + "\n")
+        paths.append(p)
+    verdicts = {}
+
+    def one(p):
+        return vlib.tlc("AssemblyCheck", "AssemblyCheck.cfg", env={"C16_BATCH": p}, timeout=timeout, xmx="3g", tag="c16_" + os.path.basename(p))
+    try:
+        with cf.ThreadPoolExecutor(max_workers=max_procs) as ex:
+            for r, p, b in zip(ex.map(one, paths), paths, batches):
+                chk.add_tlc(r, "AssemblyCheck %d cases: %s%s" % (len(b), b[0]["id"], " ..." if len(b) > 1 else ""))
+                if r.violation:
+                    raise vlib.MachineryError("TLC reported an error while evaluating %s: %s\n%s" % (p, r.violation, r.out[-1500:]))
+                for v in r.printed:
+                    verdicts[v["id"]] = v
+                if len(set(v["id"] for v in r.printed)) != len(b):
+                    raise vlib.MachineryError("TLC evaluated %d of %d cases of %s" % (len(r.printed), len(b), p))
+    finally:
+        for p in paths:
+            try:
+                os.remove(p)
+            except OSError:
+                pass
+    return verdicts
+
+
 def restrict(job, routes):
     j = dict(job)
     j["routes"] = [r for r in job["routes"] if r in routes]
@@ -95,7 +156,7 @@ def sig_of(c, fl):
     s = {"kind": "assembly", "pred": fl["p"], "shape": c["shape"], "dim": c["dim"], "class": c["class"], "test": c["test"], "trial": c["trial"],
          "mesh": c["meshname"], "op": "", "detail": ""}
     if job:
-        s["op"] = job["op"]["name"] if job["k"] == "mat" else job["fn"]["name"]
+        s["op"] = job.get("op", job.get("fn", job.get("bop")))["name"]
     d = fl["d"]
     s["detail"] = d if isinstance(d, str) and len(d) < 24 else ""
     return s
@@ -107,7 +168,7 @@ def report_harness_failure(chk, b, c, r):
     job = c["jobs"][0] if len(c["jobs"]) == 1 else None
     sig = {"kind": "harness", "pred": "harness:" + str(oc), "shape": c["shape"], "dim": c["dim"], "class": c["class"],
            "test": c["test"], "trial": c["trial"], "mesh": c["meshname"], "detail": "",
-           "op": (job["op"]["name"] if job["k"] == "mat" else job["fn"]["name"]) if job else ""}
+           "op": job.get("op", job.get("fn", job.get("bop")))["name"] if job else ""}
     slim = {k: c[k] for k in c if k != "out"}
     chk.violation(sig, "%s: %s" % (c["id"], " ".join(desc.split())[:500]), {"kind": "case", "harness": b, "case": slim, "result": r})
 
@@ -124,8 +185,8 @@ def run(chk):
 
 def _run(chk, tier, gdir):
     have = {k: b for k, b in BINARIES.items() if os.path.exists(os.path.join(vlib.VERIF, "harness", b + ".cpp"))}
-    special = os.path.exists(os.path.join(vlib.VERIF, "harness", SPECIAL_BIN + ".cpp"))
-    targets = sorted(set(have.values())) + ([SPECIAL_BIN] if special else [])
+    specials = {k: b for k, b in SPECIAL_BINS.items() if os.path.exists(os.path.join(vlib.VERIF, "harness", b + ".cpp"))}
+    targets = sorted(set(have.values())) + sorted(set(specials.values()))
     paths = dict(zip(targets, vlib.build(targets, jobs=6)))
     plans = gen_plans(chk, tier)
     if not plans:
@@ -146,30 +207,30 @@ def _run(chk, tier, gdir):
             ndof_guess = ncells * (9 if dim == 2 else 27)
             base = {"shape": shape, "dim": dim, "class": cls, "mesh": src, "meshname": name, "test": test, "trial": trial,
                     "dense": ncells <= 8, "pat": ncells <= (300 if dim == 2 else 70)}
-            js = [restrict(j, SCALAR_ROUTES) for j in jobs]
+            def jkey(j):
+                return json.dumps([shape, dim, cls, test, trial, j["k"], j.get("op", j.get("fn", j.get("bop"))), j["deg"]], sort_keys=True)
+            js = [restrict(j, SCALAR_ROUTES) for j in jobs if j["k"] != "blk"]
             js = [j for j in js if j["ref"] in j["routes"]]
             cid = "%s_%s_%s" % (name, test, trial)
             c = dict(base, id=cid, jobs=js, out=os.path.join(gdir, cid + ".json"))
             perbin.setdefault(have[(shape, dim)], []).append(c)
             bycase[cid] = c
             for j in jobs:
-                k = json.dumps([shape, dim, cls, test, trial, j.get("op", j.get("fn"))], sort_keys=True)
-                route_cover.setdefault(k, [set(j["routes"]), set()])
+                route_cover.setdefault(jkey(j), [set(j["routes"]), set()])
             for j in js:
-                k = json.dumps([shape, dim, cls, test, trial, j.get("op", j.get("fn"))], sort_keys=True)
-                route_cover[k][1] |= set(j["routes"])
-            if special:
-                sj = [restrict(j, SPECIAL_ROUTES + ["classic"]) for j in jobs if set(j["routes"]) & set(SPECIAL_ROUTES)]
+                route_cover[jkey(j)][1] |= set(j["routes"])
+            if (shape, dim) in specials:
+                sj = [restrict(j, SPECIAL_ROUTES + ["classic"]) for j in jobs if j["k"] == "mat" and set(j["routes"]) & set(SPECIAL_ROUTES)]
+                sj += [j for j in jobs if j["k"] == "blk"]
                 if sj:
                     cid2 = cid + "_sp"
                     c2 = dict(base, id=cid2, jobs=sj, out=os.path.join(gdir, cid2 + ".json"), dense=False, pat=False)
-                    perbin.setdefault(SPECIAL_BIN, []).append(c2)
+                    perbin.setdefault(specials[(shape, dim)], []).append(c2)
                     bycase[cid2] = c2
                     for j in sj:
-                        k = json.dumps([shape, dim, cls, test, trial, j.get("op", j.get("fn"))], sort_keys=True)
-                        route_cover[k][1] |= set(j["routes"])
+                        route_cover[jkey(j)][1] |= set(j["routes"])
     uncovered = {k: sorted(v[0] - v[1]) for k, v in route_cover.items() if v[0] - v[1]}
-    if uncovered and special:
+    if [k for k in uncovered if tuple(json.loads(k)[:2]) in specials]:
         raise vlib.MachineryError("routes of the catalogue that no harness executes: %s" % list(uncovered.items())[:3])
     chk.extra["routes_not_executed"] = sorted(set(r for v in uncovered.values() for r in v))
 
@@ -177,7 +238,9 @@ def _run(chk, tier, gdir):
     dumps = []
     margin = 0.0
     for b, cs in perbin.items():
+        t0 = time.time()
         res = vlib.run_cases(paths[b], cs, tmo=300, shards=8)
+        vlib.log("[c16] %s: %d cases, %d jobs, %.1fs" % (b, len(cs), sum(len(c["jobs"]) for c in cs), time.time() - t0))
         retry = []
         for c, r in zip(cs, res):
             if r.get("ok") is True:
@@ -214,8 +277,11 @@ def _run(chk, tier, gdir):
             d = json.loads(f.readline())
         d["meshname"] = c["meshname"]
         full.append(d)
-    verdicts = vmeshlib.run_tlc_batches(chk, "AssemblyCheck", "C16_BATCH", full, "c16", max_procs=6,
-                                        target_weight=30000 if tier == "quick" else 60000, weight=case_weight)
+    verdicts = judge_batches(chk, full, max_procs=6,
+                                        target_weight=1 if os.environ.get("C16_PROFILE") else (30000 if tier == "quick" else 60000))
+    if os.environ.get("C16_PROFILE"):
+        for t in sorted(chk.tlc_runs, key=lambda t: -t["wall_s"])[:25]:
+            vlib.log("[c16-profile] %s %.1fs" % (t["run"], t["wall_s"]))
     nids = nundec = 0
     for d in full:
         v = verdicts.get(d["id"])
@@ -231,7 +297,7 @@ def _run(chk, tier, gdir):
             c = bycase[d["id"]]
             slim = {k: c[k] for k in c if k != "out"}
             job = d["jobs"][fl["j"] - 1] if fl["j"] >= 1 else None
-            chk.violation(sig_of(d, fl), "%s: %s does not hold (job %s, %s)" % (d["id"], fl["p"], json.dumps(job["spec"].get("op", job["spec"].get("fn"))) if job else "-", fl["d"]),
+            chk.violation(sig_of(d, fl), "%s: %s does not hold (job %s, %s)" % (d["id"], fl["p"], json.dumps(job["spec"].get("op", job["spec"].get("fn", job["spec"].get("bop")))) if job else "-", fl["d"]),
                           {"kind": "case", "harness": "c16", "case": slim, "fail": fl, "obs": job["obs"] if job else None})
     if nids and nundec * 20 > nids:
         raise vlib.MachineryError("%d of %d identity values were not decidable within the rounding bound" % (nundec, nids))
@@ -245,7 +311,7 @@ def _run(chk, tier, gdir):
                 "(u,v) of the spaces; each plan is executed on every mesh of its class; one evaluation = one job on one mesh (all its routes and "
                 "identities), judged by TLC against spec/AssemblyCheck.tla; non-trivial = the case has at least one job; distinct = mesh x pair")
     for d in full[:3]:
-        chk.sample({"id": d["id"], "n": d["n"], "jobs": [j["spec"].get("op", j["spec"].get("fn")) for j in d["jobs"]][:6], "verdict": verdicts[d["id"]]})
+        chk.sample({"id": d["id"], "n": d["n"], "jobs": [j["spec"].get("op", j["spec"].get("fn", j["spec"].get("bop"))) for j in d["jobs"]][:6], "verdict": verdicts[d["id"]]})
     chk.assumptions = [
         "values of integrals are decided through scaled integers: |v*S - round(v*S)| <= tol*S with tol = 4096*eps*mag*W (mag from the mass/Laplace "
         "diagonals by Cauchy-Schwarz, W = sum over the pattern of |u_i||v_j|) and tol*S < 1/4; otherwise the value counts as undecidable (reported)",
